@@ -366,7 +366,11 @@ func c01RunMode(t *testing.T, p c01Plan, mode string) (res vfResult) {
 			}
 		}
 		if mode == "C17" {
-			c17CheckDeployTiming(&res, p, w, cmd.res, failed, start, deadline, maxStrict, maxLoose, oldNames, oldRollout, desc)
+			tie := false
+			for i := range newTargets {
+				tie = tie || tokStrict[i] != tokLoose[i] // a probe answered exactly at the probe timeout: either reading is legitimate
+			}
+			c17CheckDeployTiming(&res, p, w, cmd.res, failed, start, deadline, maxStrict, maxLoose, tie, oldNames, oldRollout, desc)
 			if res.Violation != "" {
 				return
 			}
